@@ -101,8 +101,9 @@ def _(query_text: Str, variables_map: VMap, join_variables_map: Opt[VMap]) -> St
     invariant(0, 0 <= __i and __i <= len(keys(variables_map)) and is_fresh(code_lines), 'idx')
     invariant(0, contents(code_lines) == common_init(query_text, 'a') + init_lines(dict_map(variables_map), keys(variables_map), __i, ' = safe_get(record_a, ', ')'), 'a_lines_so_far')
     invariant(1, 0 <= __i and __i <= len(keys(opt_val(join_variables_map))) and is_fresh(code_lines) and not is_none(join_variables_map), 'idx')
-    invariant(1, contents(code_lines) == common_init(query_text, 'a') + init_lines(dict_map(variables_map), keys(variables_map), len(keys(variables_map)), ' = safe_get(record_a, ', ')')
-              + common_init(query_text, 'b') + init_lines(dict_map(opt_val(join_variables_map)), keys(opt_val(join_variables_map)), __i, ' = safe_get(record_b, ', ') if record_b is not None else None'), 'b_lines_so_far')
+    # (what code_lines held before the second loop is known from the path that reached it: the invariant only adds the b lines)
+    invariant(1, contents(code_lines) == at_loop_entry(contents(code_lines))
+              + init_lines(dict_map(opt_val(join_variables_map)), keys(opt_val(join_variables_map)), __i, ' = safe_get(record_b, ', ') if record_b is not None else None'), 'b_lines_so_far', local=True)
     ensures(implies(is_none(join_variables_map) or len(keys(opt_val(join_variables_map))) == 0,
                     result == str_join('\n', common_init(query_text, 'a') + init_lines(dict_map(variables_map), keys(variables_map), len(keys(variables_map)), ' = safe_get(record_a, ', ')'))), 'input_variables_bound_to_their_columns')
     ensures(implies(not is_none(join_variables_map) and len(keys(opt_val(join_variables_map))) > 0,
